@@ -234,10 +234,27 @@ def norm_desc(desc):
 
 
 def norm_fn(fn):
-    # strip generic instantiation details so that the label is stable across instantiations
-    f = re.sub(r"::<[^>]*(<[^>]*>[^>]*)*>", "", fn)
+    """Strip generic instantiations (`::<...>` and `<... as ...>` arguments) by bracket matching so
+    that the label is stable across instantiations."""
+    m = re.match(r"^<(.+?) as .+>::([A-Za-z0-9_]+)$", fn)
+    if m:
+        return norm_fn(m.group(1)) + "::" + m.group(2)
+    out = []
+    depth = 0
+    i = 0
+    while i < len(fn):
+        c = fn[i]
+        if c == "<":
+            depth += 1
+        elif c == ">":
+            depth = max(0, depth - 1)
+        elif depth == 0:
+            out.append(c)
+        i += 1
+    f = "".join(out)
+    f = re.sub(r"::(::)+", "::", f)
     f = re.sub(r"\{closure#\d+\}", "{closure}", f)
-    return f
+    return f.strip(":")
 
 
 def label_of(check):
